@@ -104,6 +104,15 @@ DIFFERENT += [
     ('loop over the other iterable',
      'def f(self, i):\n    for r in (self.xs if i >= 0 else reversed(self.xs)):\n        g(r)',
      'def f(self, i):\n    if i >= 0:\n        for r in reversed(self.xs):\n            g(r)\n    else:\n        for r in self.xs:\n            g(r)'),
+    ('literal default read by the loop that changes it',
+     'def f(xs):\n    n = 0\n    for x in xs:\n        if n:\n            g(x)\n        n = 1\n    return n',
+     'def f(xs):\n    for x in xs:\n        n = 1\n    return 0'),
+    ('attribute default that the override reads',
+     'def f(self, t):\n    self.m = None\n    if t:\n        self.m = self.make()\n    self.n = 1',
+     'def f(self, t):\n    if t:\n        self.m = self.make()\n    else:\n        self.m = None\n    self.n = 2'),
+    ('percent d is not format d',
+     "def f(a):\n    return 'n=%d' % (a,)",
+     "def f(a):\n    return f'n={a:d}'"),
 ]
 
 SAME = [
@@ -132,6 +141,9 @@ SAME = [
     ('set built by a loop', 'def f(t):\n    s = set()\n    for c in t.split(","):\n        if c.strip() != "":\n            s.add(c.strip())\n    return s', 'def f(t):\n    return {c.strip() for c in t.split(",") if c.strip() != ""}'),
     ('reassociated product', 'def f(b, n, c):\n    return len(b) - 4 * n * len(c)', 'def f(b, n, c):\n    return len(b) - len(c) * n * 4'),
     ('independent tests nested the other way', 'def f(a, b):\n    if a.x:\n        if b.y:\n            return 1\n        return 2\n    if b.y:\n        return 3\n    return 4', 'def f(a, b):\n    if b.y:\n        if a.x:\n            return 1\n        return 3\n    if a.x:\n        return 2\n    return 4'),
+    ('default literal and early return', "def f(self):\n    r = b''\n    if self.h:\n        r = self.g()\n    return r", "def f(self):\n    if not self.h:\n        return b''\n    return self.g()"),
+    ('attribute default then override', 'def f(self, t):\n    self.m = None\n    if t:\n        self.m = M()\n    self.n = 1', 'def f(self, t):\n    self.m = M() if t else None\n    self.n = 1'),
+    ('percent tuple is an f-string', "def f(a, b):\n    return 'x %s y %r' % (a, b)", "def f(a, b):\n    return f'x {a!s} y {b!r}'"),
     ('match object is not None', 'def f(s):\n    if RE_X.match(s):\n        return 1\n    return 0', 'def f(s):\n    if RE_X.match(s) is not None:\n        return 1\n    return 0'),
 ]
 
